@@ -1,31 +1,41 @@
 """Conjunctions of linear constraints over integer-valued symbols, decided by Fourier-Motzkin elimination (rational relaxation).
 
-A `Lin` is an affine form  c0 + sum(ci * xi)  with Fraction coefficients.  A constraint is  lin <= 0  or  lin == 0.
+A `Lin` is an affine form  c0 + sum(ci * xi)  with integer coefficients.  A constraint is  lin <= 0  or  lin == 0.
 Strict comparisons between integer quantities are tightened:  a < b  ==  a - b + 1 <= 0.
 
-infeasible(cons)   -> True only if the conjunction has no rational (hence no integer) solution      [sound for pruning]
-entails(cons, c)   -> True only if every integer solution of cons satisfies c                        [sound for proving]
-model(cons)        -> a rational point satisfying cons, for diagnostics
+System            an incrementally built conjunction kept in solved form (equalities substituted away)
+System.infeasible_with(cons)  -> True only if the conjunction has no rational (hence no integer) solution   [sound for pruning]
+System.entails(c)             -> True only if every integer solution satisfies c                            [sound for proving]
+infeasible / entails / model  -> the same on plain lists of constraints
 """
 from fractions import Fraction
+from math import gcd
 
 
 class Lin:
-    __slots__ = ("c", "t")
+    __slots__ = ("c", "t", "_k")
 
     def __init__(self, c=0, t=None):
-        self.c = Fraction(c)
-        self.t = {k: Fraction(v) for k, v in (t or {}).items() if v != 0}
+        self.c = c
+        self.t = t if t is not None else {}
+        self._k = None
 
     @staticmethod
     def var(name):
         return Lin(0, {name: 1})
 
     def __add__(self, o):
-        o = lin(o)
+        if not isinstance(o, Lin):
+            return Lin(self.c + o, self.t)
+        if not o.t:
+            return Lin(self.c + o.c, self.t)
         t = dict(self.t)
         for k, v in o.t.items():
-            t[k] = t.get(k, 0) + v
+            x = t.get(k, 0) + v
+            if x:
+                t[k] = x
+            else:
+                del t[k]
         return Lin(self.c + o.c, t)
 
     __radd__ = __add__
@@ -34,10 +44,12 @@ class Lin:
         return Lin(-self.c, {k: -v for k, v in self.t.items()})
 
     def __sub__(self, o):
-        return self + (-lin(o))
+        if not isinstance(o, Lin):
+            return Lin(self.c - o, self.t)
+        return self + (-o)
 
     def __rsub__(self, o):
-        return lin(o) - self
+        return (-self) + o
 
     def __mul__(self, k):
         if isinstance(k, Lin):
@@ -47,7 +59,12 @@ class Lin:
                 return k * self.c
             else:
                 raise ValueError("non-linear product")
-        k = Fraction(k)
+        if isinstance(k, Fraction):
+            if k.denominator != 1:
+                raise ValueError("non-integer scaling")
+            k = int(k)
+        if k == 0:
+            return Lin(0)
         return Lin(self.c * k, {v: c * k for v, c in self.t.items()})
 
     __rmul__ = __mul__
@@ -55,25 +72,29 @@ class Lin:
     def is_const(self):
         return not self.t
 
-    def subst(self, name, repl):
-        if name not in self.t:
-            return self
-        k = self.t[name]
-        t = dict(self.t)
-        del t[name]
-        return Lin(self.c, t) + repl * k
-
     def vars(self):
         return set(self.t)
 
     def key(self):
-        return (self.c, tuple(sorted(self.t.items())))
+        if self._k is None:
+            self._k = (self.c, tuple(sorted(self.t.items())))
+        return self._k
 
     def __eq__(self, o):
         return isinstance(o, Lin) and self.key() == o.key()
 
     def __hash__(self):
         return hash(self.key())
+
+    def primitive(self):
+        """divide by the gcd of all coefficients (for <= forms: also tighten the constant)"""
+        g = 0
+        for v in self.t.values():
+            g = gcd(g, abs(v))
+        if g <= 1:
+            return self
+        # sum(ci*xi) + c <= 0 with all ci divisible by g  ->  sum(ci/g*xi) + ceil(c/g) <= 0   (integers)
+        return Lin(-((-self.c) // g), {k: v // g for k, v in self.t.items()})
 
     def __repr__(self):
         parts = []
@@ -93,6 +114,10 @@ class Lin:
 def lin(x):
     if isinstance(x, Lin):
         return x
+    if isinstance(x, Fraction):
+        if x.denominator != 1:
+            raise ValueError("non-integer constant")
+        x = int(x)
     return Lin(x)
 
 
@@ -138,123 +163,192 @@ def negations(c):
     return [Con(c.l + 1, "le"), Con(-c.l + 1, "le")]
 
 
-def _solve_eqs(cons):
-    """Substitute equalities away.  Returns (list of <=-forms, substitutions) or None when contradictory."""
-    eqs = [c.l for c in cons if c.kind == "eq"]
-    les = [c.l for c in cons if c.kind == "le"]
-    subs = []
-    while eqs:
-        e = eqs.pop()
-        if e.is_const():
-            if e.c != 0:
-                return None
-            continue
-        v = min(e.t, key=lambda k: (abs(e.t[k]) != 1, k))
-        k = e.t[v]
-        rest = Lin(e.c, {a: b for a, b in e.t.items() if a != v}) * (Fraction(-1) / k)
-        eqs = [x.subst(v, rest) for x in eqs]
-        les = [x.subst(v, rest) for x in les]
-        subs.append((v, rest))
-    return les, subs
+def _apply(l, v, k, rest):
+    """substitute  k*v == rest  (k > 0) into the form l (scaled by k when needed; sign of <= preserved)."""
+    a = l.t.get(v)
+    if a is None:
+        return l
+    t = dict(l.t)
+    del t[v]
+    base = Lin(l.c, t)
+    if k == 1:
+        return base + rest * a
+    return base * k + rest * a
+
+
+class System:
+    __slots__ = ("subs", "les", "dead", "_seen")
+
+    def __init__(self):
+        self.subs = []      # (var, k>0, rest):  k*var == rest, triangular
+        self.les = []       # Lin <= 0, with all substitutions applied
+        self.dead = False
+        self._seen = set()
+
+    def copy(self):
+        s = System()
+        s.subs = list(self.subs)
+        s.les = list(self.les)
+        s.dead = self.dead
+        s._seen = set(self._seen)
+        return s
+
+    def reduce(self, l):
+        for v, k, rest in self.subs:
+            if v in l.t:
+                l = _apply(l, v, k, rest)
+        return l
+
+    def add(self, con):
+        if self.dead:
+            return
+        l = self.reduce(con.l)
+        if con.kind == "le":
+            self._add_le(l)
+            return
+        if not l.t:
+            if l.c != 0:
+                self.dead = True
+            return
+        v = min(l.t, key=lambda x: (abs(l.t[x]) != 1, x))
+        k = l.t[v]
+        t = dict(l.t)
+        del t[v]
+        rest = Lin(l.c, t)
+        if k > 0:
+            rest = -rest
+        else:
+            k = -k
+        # k*v == rest
+        self.subs.append((v, k, rest))
+        old = self.les
+        self.les = []
+        self._seen = set()
+        for x in old:
+            self._add_le(_apply(x, v, k, rest))
+
+    def _add_le(self, l):
+        if not l.t:
+            if l.c > 0:
+                self.dead = True
+            return
+        l = l.primitive()
+        key = l.key()
+        if key not in self._seen:
+            self._seen.add(key)
+            self.les.append(l)
+
+    def extend(self, cons):
+        for c in cons:
+            self.add(c)
+        return self
+
+    def infeasible_with(self, cons=()):
+        if self.dead:
+            return True
+        s = self
+        if cons:
+            s = self.copy()
+            for c in cons:
+                s.add(c)
+            if s.dead:
+                return True
+        return _fm(s.les) is False
+
+    def entails(self, c):
+        return all(self.infeasible_with([n]) for n in negations(c))
+
+    def model(self):
+        if self.dead:
+            return None
+        trail = _fm(self.les, want_model=True)
+        if trail is False:
+            return None
+        val = {}
+        for v, pos, neg in reversed(trail):
+            lo, hi = None, None
+            for p in pos:
+                r = Lin(p.c, {k: c for k, c in p.t.items() if k != v})
+                b = -_eval(r, val) / p.t[v]
+                hi = b if hi is None else min(hi, b)
+            for n in neg:
+                r = Lin(n.c, {k: c for k, c in n.t.items() if k != v})
+                b = -_eval(r, val) / n.t[v]
+                lo = b if lo is None else max(lo, b)
+            if lo is None and hi is None:
+                x = Fraction(0)
+            elif lo is None:
+                x = Fraction(hi.__floor__())
+            elif hi is None:
+                x = Fraction(lo.__ceil__())
+            else:
+                x = Fraction(lo.__ceil__()) if lo.__ceil__() <= hi else (lo + hi) / 2
+            val[v] = x
+        for v, k, rest in reversed(self.subs):
+            val[v] = _eval(rest, val) / k
+        return val
 
 
 def _fm(les, want_model=False):
     """Fourier-Motzkin on forms l <= 0.  Returns False if infeasible, else True (or elimination trail for models)."""
     trail = []
-    cur = []
-    seen = set()
-    for l in les:
-        if l.is_const():
-            if l.c > 0:
-                return False
-            continue
-        k = l.key()
-        if k not in seen:
-            seen.add(k)
-            cur.append(l)
+    cur = list(les)
     while True:
-        vs = set()
+        cnt = {}
         for l in cur:
-            vs |= l.vars()
-        if not vs:
+            for v, c in l.t.items():
+                e = cnt.setdefault(v, [0, 0])
+                e[0 if c > 0 else 1] += 1
+        if not cnt:
             break
-
-        def cost(v):
-            p = sum(1 for l in cur if l.t.get(v, 0) > 0)
-            n = sum(1 for l in cur if l.t.get(v, 0) < 0)
-            return p * n - p - n
-        v = min(vs, key=lambda x: (cost(x), x))
-        pos = [l for l in cur if l.t.get(v, 0) > 0]
-        neg = [l for l in cur if l.t.get(v, 0) < 0]
-        rest = [l for l in cur if v not in l.t]
-        trail.append((v, pos, neg))
-        new = list(rest)
+        v = min(cnt, key=lambda x: (cnt[x][0] * cnt[x][1] - cnt[x][0] - cnt[x][1], x))
+        pos, neg, new = [], [], []
+        for l in cur:
+            c = l.t.get(v)
+            if c is None:
+                new.append(l)
+            elif c > 0:
+                pos.append(l)
+            else:
+                neg.append(l)
+        if want_model:
+            trail.append((v, pos, neg))
         seen = {l.key() for l in new}
         for p in pos:
+            pv = p.t[v]
             for n in neg:
-                c = p * (Fraction(1) / p.t[v]) + n * (Fraction(-1) / n.t[v])
-                if c.is_const():
+                nv = -n.t[v]
+                c = p * nv + n * pv
+                if not c.t:
                     if c.c > 0:
                         return False
                     continue
-                # normalise scale for dedupe
-                lead = abs(next(iter(sorted(c.t.items())))[1])
-                c = c * (Fraction(1) / lead)
+                c = c.primitive()
                 k = c.key()
                 if k not in seen:
                     seen.add(k)
                     new.append(c)
-        if len(new) > 4000:
+        if len(new) > 6000:
             raise OverflowError("fm: constraint blow-up")
         cur = new
     return trail if want_model else True
 
 
+def _eval(l, val):
+    return Fraction(l.c) + sum(c * val.get(k, Fraction(0)) for k, c in l.t.items())
+
+
+def system(cons):
+    return System().extend(cons)
+
+
 def infeasible(cons):
-    s = _solve_eqs(cons)
-    if s is None:
-        return True
-    les, _ = s
-    return _fm(les) is False
+    return system(cons).infeasible_with()
 
 
 def entails(cons, c):
-    return all(infeasible(list(cons) + [n]) for n in negations(c))
+    return system(cons).entails(c)
 
 
 def model(cons):
-    """A rational point of the conjunction (None if infeasible)."""
-    s = _solve_eqs(cons)
-    if s is None:
-        return None
-    les, subs = s
-    trail = _fm(les, want_model=True)
-    if trail is False:
-        return None
-    val = {}
-    for v, pos, neg in reversed(trail):
-        lo, hi = None, None
-        for p in pos:   # a*v + rest <= 0, a>0  ->  v <= -rest/a
-            r = Lin(p.c, {k: c for k, c in p.t.items() if k != v})
-            b = -_eval(r, val) / p.t[v]
-            hi = b if hi is None else min(hi, b)
-        for n in neg:   # a*v + rest <= 0, a<0  ->  v >= -rest/a
-            r = Lin(n.c, {k: c for k, c in n.t.items() if k != v})
-            b = -_eval(r, val) / n.t[v]
-            lo = b if lo is None else max(lo, b)
-        if lo is None and hi is None:
-            x = Fraction(0)
-        elif lo is None:
-            x = Fraction(hi.__floor__())
-        elif hi is None:
-            x = Fraction(lo.__ceil__())
-        else:
-            x = Fraction(lo.__ceil__()) if lo.__ceil__() <= hi else (lo + hi) / 2
-        val[v] = x
-    for v, rest in reversed(subs):
-        val[v] = _eval(rest, val)
-    return val
-
-
-def _eval(l, val):
-    return l.c + sum(c * val.get(k, Fraction(0)) for k, c in l.t.items())
+    return system(cons).model()
